@@ -1,0 +1,24 @@
+//go:build verif
+
+package types
+
+// Contracts for the deductive verifier in /verif (govc). Comment-only; compiled only with -tags verif.
+
+//@ impl modules/core/exported.Height = modules/core/02-client/types.Height
+
+//@ spec func hcmp(an int, ah int, bn int, bh int) int = ite(an < bn, -1, ite(an > bn, 1, ite(ah < bh, -1, ite(ah > bh, 1, 0))))
+
+//@ contract (Height).Compare
+//@   let o = dyn(other, Height)
+//@   requires isType(other, Height)
+//@   ensures lex: result == hcmp(h.RevisionNumber, h.RevisionHeight, o.RevisionNumber, o.RevisionHeight)
+//@   ensures range: result == -1 || result == 0 || result == 1
+//@   nopanic
+
+//@ contract (Height).LT
+//@   let o = dyn(other, Height)
+//@   requires isType(other, Height)
+//@   ensures result == (hcmp(h.RevisionNumber, h.RevisionHeight, o.RevisionNumber, o.RevisionHeight) == -1)
+
+//@ contract (Height).IsZero
+//@   ensures result == (h.RevisionNumber == 0 && h.RevisionHeight == 0)
